@@ -8,6 +8,7 @@
 -/
 import TuModel.Lemmas.EditTable
 import TuModel.Lemmas.EditScript
+import TuModel.Lemmas.ScriptAcceptL
 namespace Tu.C12
 open Tu
 
@@ -175,5 +176,102 @@ example : ∃ ops, editOperations { swap := false, sid := true } [[97], [32], [9
   exact ⟨ops, h1, by rw [h2]; decide, h3⟩
 example : editOperations { swap := true, sid := true } [[97], [32]] [[32], [97]] =
     some [(.insert, 0, 0), (.delete, 1, 2)] := by decide
+
+/-! ## the relational acceptance test `scriptAccept` for `operations()`
+
+`operations()` may return any optimal script; the correspondence check therefore does not compare the answer with
+the model's backtrace but runs `scriptAccept` (Model/Edit.lean) on it.  The three theorems say: the test never
+refuses the modelled code, what it accepts has exactly the property's clauses, and what it accepts is optimal. -/
+
+/-- the script the code's backtrace produces is accepted (so the acceptance test never refuses the modelled code) -/
+theorem editOperations_accepted (fl : EFlags) (a b : List (List Nat)) (ops : List (EKind × Nat × Nat))
+    (h : editOperations fl a b = some ops) : scriptAccept fl a b ops = true := by
+  obtain ⟨ops', h', hlen, hsem, hsorted⟩ := editOperations_ok fl a b
+  rw [h] at h'; cases h'
+  have hflags := editOperations_flags fl a b ops h
+  have hbounds := editOperations_bounds fl a b ops h
+  refine (scriptAccept_iff fl a b ops).mpr ⟨hlen, pairwise_scriptSorted ops hsorted, ?_, hsem⟩
+  intro p hp
+  obtain ⟨hsw, hrp⟩ := hflags p hp
+  obtain ⟨b1, b2, b3, b4⟩ := hbounds p hp
+  refine (opOk_iff fl a b p).mpr ⟨fun e => ?_, fun e => ?_, fun e => ?_, fun e => ?_⟩
+  · have := b1 e; exact ⟨this.2, this.1⟩
+  · exact (b2 e).2
+  · have := b3 e; exact ⟨this.2.1, this.2.2, hrp e⟩
+  · have := b4 e; exact ⟨(hsw e).1, by omega, (hsw e).2⟩
+
+/-- what acceptance means: the property's clauses for `operations(a, b)` -/
+theorem scriptAccept_spec (fl : EFlags) (a b : List (List Nat)) (ops : List (EKind × Nat × Nat))
+    (h : scriptAccept fl a b ops = true) :
+    ops.length = editDistance fl a b ∧
+    applyScript a b ops 0 = b ∧
+    ops.Pairwise (fun p q => p.2.1 ≤ q.2.1 ∧ p.2.2 ≤ q.2.2) ∧
+    (∀ p ∈ ops, (p.1 = EKind.swap → fl.swap = true ∧ canReplace fl (a.getD p.2.1 []) (a.getD (p.2.1 + 1) []) = true) ∧
+                (p.1 = EKind.replace → canReplace fl (a.getD p.2.1 []) (b.getD p.2.2 []) = true)) := by
+  obtain ⟨hlen, hs, hok, hsem⟩ := (scriptAccept_iff fl a b ops).mp h
+  refine ⟨hlen, hsem, scriptSorted_pairwise ops hs, ?_⟩
+  intro p hp
+  obtain ⟨_, _, h3, h4⟩ := (opOk_iff fl a b p).mp (hok p hp)
+  exact ⟨fun e => ⟨(h4 e).1, (h4 e).2.2⟩, fun e => (h3 e).2.2⟩
+
+/-- besides the property's clauses, acceptance guarantees that every operation refers to existing characters
+(the part of `opOk` that `scriptAccept_spec` does not mention) -/
+theorem scriptAccept_bounds (fl : EFlags) (a b : List (List Nat)) (ops : List (EKind × Nat × Nat))
+    (h : scriptAccept fl a b ops = true) :
+    ∀ p ∈ ops, (p.1 = EKind.insert → p.2.2 < b.length ∧ p.2.1 ≤ a.length) ∧
+               (p.1 = EKind.delete → p.2.1 < a.length) ∧
+               (p.1 = EKind.replace → p.2.1 < a.length ∧ p.2.2 < b.length) ∧
+               (p.1 = EKind.swap → p.2.1 + 1 < a.length) := by
+  obtain ⟨_, _, hok, _⟩ := (scriptAccept_iff fl a b ops).mp h
+  intro p hp
+  obtain ⟨h1, h2, h3, h4⟩ := (opOk_iff fl a b p).mp (hok p hp)
+  exact ⟨h1, h2, fun e => ⟨(h3 e).1, (h3 e).2.1⟩, fun e => (h4 e).2.1⟩
+
+/-- an accepted script is optimal: no valid alignment is shorter (via `distance_le_script`) -/
+theorem scriptAccept_minimal (fl : EFlags) (a b : List (List Nat)) (ops : List (EKind × Nat × Nat))
+    (h : scriptAccept fl a b ops = true) (n : Nat) (hal : Align fl a.reverse b.reverse n) : ops.length ≤ n := by
+  rw [(scriptAccept_spec fl a b ops h).1]
+  exact distance_le_script fl a b n hal
+
+/-- the acceptance test is not vacuous: for every pair of texts some script is accepted -/
+theorem scriptAccept_exists (fl : EFlags) (a b : List (List Nat)) : ∃ ops, scriptAccept fl a b ops = true := by
+  obtain ⟨ops, h, _⟩ := editOperations_ok fl a b
+  exact ⟨ops, editOperations_accepted fl a b ops h⟩
+
+/-! examples for the acceptance test ("ab" → "ba"; `[97] = a`, `[98] = b`, `[32] = space`, `[120] = x`) -/
+
+/-- accepted: the one-swap script, with swaps enabled -/
+example : scriptAccept { swap := true, sid := false } [[97], [98]] [[98], [97]] [(.swap, 0, 0)] = true := by decide
+/-- … and it is the script the backtrace gives -/
+example : editOperations { swap := true, sid := false } [[97], [98]] [[98], [97]] = some [(.swap, 0, 0)] := by decide
+/-- accepted although it is not the backtrace's answer: without swaps there are several optimal scripts
+(insert + delete, which the backtrace finds, or two replacements) and the test fixes none -/
+example : editOperations { swap := false, sid := false } [[97], [98]] [[98], [97]] =
+    some [(.insert, 0, 0), (.delete, 1, 2)] := by decide
+example : scriptAccept { swap := false, sid := false } [[97], [98]] [[98], [97]] [(.replace, 0, 0), (.replace, 1, 1)] = true := by
+  decide
+/-- refused: a valid script (sorted, in range, replaying it gives `b`) that is one operation too long -/
+example :
+    scriptAccept { swap := true, sid := false } [[97], [98]] [[98], [97]] [(.replace, 0, 0), (.replace, 1, 1)] = false ∧
+    applyScript [[97], [98]] [[98], [97]] [(.replace, 0, 0), (.replace, 1, 1)] 0 = [[98], [97]] ∧
+    scriptSorted [(.replace, 0, 0), (.replace, 1, 1)] = true ∧
+    [(EKind.replace, 0, 0), (EKind.replace, 1, 1)].all (opOk { swap := true, sid := false } [[97], [98]] [[98], [97]]) = true ∧
+    editDistance { swap := true, sid := false } [[97], [98]] [[98], [97]] = 1 := by decide
+/-- refused: a swap although `with_swap` is off -/
+example : scriptAccept { swap := false, sid := false } [[97], [98], [99]] [[98], [97], [120]] [(.swap, 0, 0), (.replace, 2, 2)] = false ∧
+    editDistance { swap := false, sid := false } [[97], [98], [99]] [[98], [97], [120]] = 3 := by decide
+/-- refused: a script that substitutes whitespace under `spaces_insert_delete_only` (" a" → "xb"); it has the right
+length (3, the distance under `sid`), is sorted and replays to `b` — only `opOk` of the replacement fails -/
+example :
+    scriptAccept { swap := false, sid := true } [[32], [97]] [[120], [98]] [(.replace, 0, 0), (.delete, 1, 1), (.insert, 2, 1)] = false ∧
+    editDistance { swap := false, sid := true } [[32], [97]] [[120], [98]] = 3 ∧
+    scriptSorted [(.replace, 0, 0), (.delete, 1, 1), (.insert, 2, 1)] = true ∧
+    applyScript [[32], [97]] [[120], [98]] [(.replace, 0, 0), (.delete, 1, 1), (.insert, 2, 1)] 0 = [[120], [98]] ∧
+    opOk { swap := false, sid := true } [[32], [97]] [[120], [98]] (.replace, 0, 0) = false := by decide
+/-- the two-replacement script for the same texts is accepted without `sid` and refused with it -/
+example : scriptAccept { swap := false, sid := false } [[32], [97]] [[120], [98]] [(.replace, 0, 0), (.replace, 1, 1)] = true ∧
+    scriptAccept { swap := false, sid := true } [[32], [97]] [[120], [98]] [(.replace, 0, 0), (.replace, 1, 1)] = false := by decide
+/-- refused: an operation that refers to a character that does not exist (`delete` at `i = |a|`) -/
+example : opOk { swap := true, sid := false } [[97]] [] (.delete, 1, 0) = false := by decide
 
 end Tu.C12
